@@ -293,6 +293,7 @@ def conclude(mod, total: Ctx, tier: str, seed: int, nchunks: int, wall: float) -
         verdict = "held"
 
     replay_paths = []
+    shutil.rmtree(VERIF / "replays" / mod.ID, ignore_errors=True)
     if viol:
         rdir = VERIF / "replays" / mod.ID
         rdir.mkdir(parents=True, exist_ok=True)
